@@ -98,7 +98,10 @@ Fixpoint expl (p : formula) (flag : bool) (iv : list ivl) (tb : table) {struct p
   match p with
   | Var x => Some (tb_add x iv tb)
   | Const _ => Some tb
-  | A1 _ f | Rise f | Fall f => expl f flag iv tb
+  | A1 _ f => expl f flag iv tb
+  (* rise(f) = f and not prev(f), fall(f) = prev(f) and not f: both samples, with their own polarity *)
+  | Rise f => obind (expl f flag iv tb) (expl f (negb flag) (e_prev iv))
+  | Fall f => obind (expl f (negb flag) iv tb) (expl f flag (e_prev iv))
   | A2 _ f g | Pred _ f g | Iff f g | Xor f g => both f g iv iv flag flag
   | Not f => expl f (negb flag) iv tb
   | And f g => if flag then both f g iv iv flag flag
